@@ -144,3 +144,18 @@ Definition run_eq (arg : V) : V :=
               match schema_of ty format with Some s => vbool (reflb s a) | None => VI 1 end])
   | _, _ => fail ENotImpl
   end.
+
+(* ---------- where an item's numbers live (C20, Buffers.v) ----------
+   [ops; queries]   ops: [1; k] source (k = 0 kept as it is, 1 converted) | [2; src] item from source | [3; it] edit item in place
+   | [4; src] edit source in place; ids are allocated in order (see Buffers.b_step)
+   queries: [0; it] version of the item's buffer | [1; src] version of the source's buffer   ->   [[v] | []] per query *)
+From Model Require Export Buffers.
+Definition bop_of_v (v : V) : bop :=
+  let k := vint (vnth 0 v) in
+  if k =? 1 then BSource (if vint (vnth 1 v) =? 0 then SKeep else SConvert) else
+  if k =? 2 then BItem (vint (vnth 1 v)) else
+  if k =? 3 then BEditItem (vint (vnth 1 v)) else BEditSource (vint (vnth 1 v)).
+Definition run_buffers (arg : V) : V :=
+  let s := b_run bs_init (map bop_of_v (vlist (vnth 0 arg))) in
+  ok (VL (map (fun q => match (if vint (vnth 0 q) =? 0 then item_ver s (vint (vnth 1 q)) else src_ver s (vint (vnth 1 q))) with
+                        | Some v => VL [VI v] | None => VL [] end) (vlist (vnth 1 arg)))).
